@@ -89,7 +89,7 @@ class HistFit(FitBase):
     def _init_nexus(self):
         super(HistFit, self)._init_nexus()
 
-        self._nexus.add_dependency("model", depends_on=("parameter_values"))
+        self._nexus.add_dependency("model", depends_on=("parameter_values", "data"))
 
     def _set_new_data(self, new_data):
         try:
